@@ -729,6 +729,9 @@ func (d *Driver) exec(st *Step, g string) {
 				return err, []any{"sid", d.sid(st.Obj), "src", "", "tag", 0}
 			}
 			tag := 0
+			if nc, ok := m.Metadata.(*message.UpstreamNormalClose); ok {
+				tag = int(nc.TotalDataPoints)
+			}
 			if bt, ok := m.Metadata.(*message.BaseTime); ok {
 				tag = int(bt.ElapsedTime)
 			}
@@ -908,8 +911,14 @@ func (d *Driver) exec(st *Step, g string) {
 		if st.UpAl != 0 {
 			alias = uint32(st.UpAl)
 		}
+		var md message.Metadata = &message.BaseTime{SessionID: "s", Name: "n", ElapsedTime: time.Duration(st.Tag), BaseTime: time.Unix(1, 0).UTC()}
+		if st.Mode == "upClose" {
+			// the upstream st.Up has finished normally (chunks of it may still be on their way to the consumer)
+			info := d.b.UpInfo(st.Up)
+			md = &message.UpstreamNormalClose{StreamID: info.StreamID, SessionID: info.SessionID, TotalDataPoints: uint64(st.Tag), FinalSequenceNumber: uint32(st.Tag)}
+		}
 		inc.sendSync(&message.DownstreamMetadata{RequestID: message.RequestID(rid), StreamIDAlias: alias, SourceNodeID: st.Src,
-			Metadata: &message.BaseTime{SessionID: "s", Name: "n", ElapsedTime: time.Duration(st.Tag), BaseTime: time.Unix(1, 0).UTC()}},
+			Metadata: md},
 			"BSendMeta", "sid", dn.Sid, "alias", int(alias), "src", st.Src, "tag", st.Tag, "rid", int(rid))
 	case "sendCall":
 		inc := d.b.CurInc()
